@@ -551,7 +551,8 @@ static int markAccessors(Module &M) {
         if (!cf || !acc.count(cf)) ok = false;
       }
     }
-    if (!ok || stores != 1 || n > 24 || F.size() != 1) continue;
+    // ... possibly under one test of its own (`if (list->tail == was) list->tail = now;`)
+    if (!ok || stores != 1 || n > 24 || F.size() > 3 || hasBackEdge(F)) continue;
     acc.insert(&F);
     if (getenv("IRDUMP_VERBOSE")) errs() << "setter: " << F.getName() << "\n";
   }
